@@ -1045,7 +1045,11 @@ coap_send_pdu(coap_session_t *session, coap_pdu_t *pdu, coap_queue_t *node) {
     return coap_session_delay_pdu(session, pdu, node);
 
   bytes_written = coap_session_send_pdu(session, pdu);
-  if (bytes_written >= 0 && pdu->type == COAP_MESSAGE_CON &&
+  /*
+   * A retransmission (node set) stays in the send queue whether or not this
+   * write succeeded, so it keeps occupying its NSTART slot.
+   */
+  if ((bytes_written >= 0 || node != NULL) && pdu->type == COAP_MESSAGE_CON &&
       COAP_PROTO_NOT_RELIABLE(session->proto))
     session->con_active++;
 
